@@ -34,17 +34,23 @@ pub(crate) async fn listen(
         (shutdown.notification_handler(), shutdown.completion_guard())
     };
 
-    tokio::select! {
+    let shutdown_requested = tokio::select! {
         x = shutdown_notification.wait() => {
             match x {
                 Ok(_) => (),
                 Err(e) => log_id!(debug, log_id, "Shutdown notification failure: {}", e),
             }
+            true
         },
-        _ = listen_inner(codec.as_mut(), timeout, &log_id) => (),
-    }
+        _ = listen_inner(codec.as_mut(), timeout, &log_id) => false,
+    };
 
-    if let Err(e) = codec.graceful_shutdown().await {
+    let closed = if shutdown_requested {
+        crate::shutdown::close_within_bound(codec.graceful_shutdown()).await
+    } else {
+        codec.graceful_shutdown().await
+    };
+    if let Err(e) = closed {
         log_id!(debug, log_id, "Failed to shutdown HTTP session: {}", e);
     }
 }
